@@ -298,6 +298,8 @@ def rule_deshuffle(ctx):
             stores_ = [a_ for a_ in flow.stmts if isinstance(a_, ast.Assign) and norm(a_.targets[0]) == "self.%s" % attr_
                        and not (isinstance(a_.value, ast.Constant) and a_.value.value is None)]
             g_perm = sorted(("" if p_ else "not ") + str(norm(t_)) for t_, p_ in guard_chain(st, implicit=True))
+            if g_perm == ["self.%s is not None" % attr_] and stores_ and all(flow._order(a_) < flow._order(st) for a_ in stores_):
+                stores_ = []        # permuted exactly when a permutation was stored: the test is on the stored value itself
             for a_ in stores_:
                 g_st = sorted(("" if p_ else "not ") + str(norm(t_)) for t_, p_ in guard_chain(a_, implicit=True))
                 if g_st != g_perm:
